@@ -965,6 +965,10 @@ def report(ctx, what, replay):
     from common import load_known, matches_known
     if isinstance(ctx, _Probe):
         ctx.dirty = True
+        known = any(matches_known(k, replay) for k in load_known(ctx.prop)) or \
+            any(all(replay.get(a) == b for a, b in sig.items()) for sig in KNOWN_LOCAL)
+        if not known:
+            ctx.unknown.append(what)
         return
     if not any(matches_known(k, replay) for k in load_known(ctx.prop)):
         for sig in KNOWN_LOCAL:
@@ -1191,9 +1195,84 @@ def run_cases(ctx, cases, batch=24, workers=8):
         if probe.dirty:
             # confirm alone in a fresh process before reporting
             r1 = run_worker(REPO, [c.job()])[0]
-            judge(ctx, c, r1, model[c.id] if model else None)
+            probe = _Probe(ctx)
+            judge(probe, c, r1, model[c.id] if model else None)
+            if probe.unknown and c.cls == 'wf' and getattr(ctx, 'shrinks_left', 2) > 0:
+                ctx.shrinks_left = getattr(ctx, 'shrinks_left', 2) - 1
+                c2 = shrink(ctx, c, stage_of(probe.unknown[0]))
+                r2 = run_worker(REPO, [c2.job()])[0]
+                m2 = ctx.driver.ask(model_requests(c2)) if model else None
+                judge(ctx, c2, r2, m2)
+            else:
+                judge(ctx, c, r1, model[c.id] if model else None)
         else:
             probe.flush_counts()
+
+
+def stage_of(what):
+    """coarse class of an oracle failure, kept fixed while shrinking"""
+    for key in ('the generator failed', 'does not import', 'generated classes differ', 'registered message classes',
+                'building/encoding', 'values read back', 'bytes differ', 'decoding its own', 'decoded ', 're-encoding'):
+        if key in what:
+            return key
+    return what[:30]
+
+
+def shrink(ctx, case, stage, budget=45):
+    """greedy minimisation of a failing well-formed specification: drop messages, records, enums, field definitions, fields and
+    attributes while the reference semantics still accepts the specification and the same kind of failure is observed"""
+    import copy
+    import random
+    from common import REPO
+    runs = [0]
+
+    def fails(spec):
+        if runs[0] >= budget:
+            return None
+        c = Case(case.id + 's', 'wf', case.impl, spec, case.override)
+        prepare(c, random.Random(1), 4)
+        if not isinstance(c.ref, tuple):
+            return None
+        runs[0] += 1
+        r = run_worker(REPO, [c.job()])[0]
+        probe = _Probe(ctx)
+        try:
+            judge(probe, c, r, None)
+        except RuntimeError:
+            return None
+        return c if any(stage_of(w) == stage for w in probe.unknown) else None
+
+    best = fails(case.spec) or case
+    spec = best.spec
+    changed = True
+    while changed and runs[0] < budget:
+        changed = False
+        cands = []
+        for sec in ('messages', 'records', 'enums', 'fielddefs'):
+            for i in range(len(spec[sec])):
+                if sec == 'messages' and len(spec[sec]) == 1:
+                    continue
+                s2 = copy.deepcopy(spec)
+                del s2[sec][i]
+                cands.append(s2)
+        for sec in ('messages', 'records'):
+            for i, cont in enumerate(spec[sec]):
+                for j in range(len(cont['fields'])):
+                    if len(cont['fields']) > 1:
+                        s2 = copy.deepcopy(spec)
+                        del s2[sec][i]['fields'][j]
+                        cands.append(s2)
+                    for attr in ('default', 'array', 'endian'):
+                        if cont['fields'][j].get(attr) is not None:
+                            s2 = copy.deepcopy(spec)
+                            s2[sec][i]['fields'][j][attr] = None
+                            cands.append(s2)
+        for s2 in cands:
+            c = fails(s2)
+            if c is not None:
+                best, spec, changed = c, s2, True
+                break
+    return best
 
 
 class _Probe:
@@ -1201,7 +1280,7 @@ class _Probe:
 
     def __init__(self, ctx):
         self.ctx, self.dirty, self.counts = ctx, False, []
-        self.prop, self.known_hits = ctx.prop, []
+        self.prop, self.known_hits, self.unknown = ctx.prop, [], []
 
     def count(self, key, n=1):
         self.counts.append((key, n))
